@@ -1,405 +1,4 @@
-(* GENERATED by tools/py2v_formulas.py from /repo/src/pygaps/modelling/*.py - do not edit.
-   One scalar point of loading / pressure / spreading_pressure of every isotherm model over R, with definedness predicates. *)
-From Coq Require Import Reals.
-From Coquelicot Require Import Coquelicot.
-From PG Require Import Models.PyReal.
-Open Scope R_scope.
-
-(* ---- BET (bet.py), calculates loading; parameters n_m, C, N *)
-Definition BET_bounds (n_m C N : R) : Prop := 0 <= n_m /\ 0 <= C /\ 0 <= N /\ N <= 1.
-Definition BET_loading (n_m C N : R) (pressure : R) : R :=
-  let nm := n_m in
-  let N := N in
-  let C := C in
-  (((nm * C) * pressure) / ((1 - (N * pressure)) * ((1 - (N * pressure)) + (C * pressure)))).
-Definition BET_loading_def (n_m C N : R) (pressure : R) : Prop :=
-  let nm := n_m in
-  let N := N in
-  let C := C in
-  ((1 - (N * pressure)) * ((1 - (N * pressure)) + (C * pressure))) <> 0.
-Definition BET_pressure (n_m C N : R) (loading : R) : R :=
-  let nm := n_m in
-  let N := N in
-  let C := C in
-  let x := ((loading * N) * (N - C)) in
-  let y := (((loading * C) - ((2 * loading) * N)) - (nm * C)) in
-  let res := (nan_div ((- y) - (sqrt ((y ^ 2) - ((4 * x) * loading)))) (2 * x)) in
-  res.
-Definition BET_pressure_def (n_m C N : R) (loading : R) : Prop :=
-  let nm := n_m in
-  let N := N in
-  let C := C in
-  let x := ((loading * N) * (N - C)) in
-  let y := (((loading * C) - ((2 * loading) * N)) - (nm * C)) in
-  0 <= ((y ^ 2) - ((4 * x) * loading)) /\ ((2 * x) <> 0 \/ ((- y) - (sqrt ((y ^ 2) - ((4 * x) * loading)))) = 0) /\
-  let res := (nan_div ((- y) - (sqrt ((y ^ 2) - ((4 * x) * loading)))) (2 * x)) in
-  True.
-Definition BET_spreading_pressure (n_m C N : R) (pressure : R) : R :=
-  let nm := n_m in
-  let N := N in
-  let C := C in
-  (nm * (ln (((1 - (N * pressure)) + (C * pressure)) / (1 - (N * pressure))))).
-Definition BET_spreading_pressure_def (n_m C N : R) (pressure : R) : Prop :=
-  let nm := n_m in
-  let N := N in
-  let C := C in
-  (1 - (N * pressure)) <> 0 /\ 0 < (((1 - (N * pressure)) + (C * pressure)) / (1 - (N * pressure))).
-
-(* ---- DA (da.py), calculates loading; parameters n_m, e, m; instance attributes minus_rt *)
-Definition DA_bounds (n_m e m : R) : Prop := 0 <= n_m /\ 0 <= e /\ 1 <= m /\ m <= 3.
-Definition DA_loading (minus_rt n_m e m : R) (pressure : R) : R :=
-  let nm := n_m in
-  let e := e in
-  let m := m in
-  (nm * (exp (- (pypow ((minus_rt * (ln pressure)) / e) m)))).
-Definition DA_loading_def (minus_rt n_m e m : R) (pressure : R) : Prop :=
-  let nm := n_m in
-  let e := e in
-  let m := m in
-  0 < pressure /\ e <> 0 /\ pypow_def ((minus_rt * (ln pressure)) / e) m.
-Definition DA_pressure (minus_rt n_m e m : R) (loading : R) : R :=
-  let nm := n_m in
-  let e := e in
-  let m := m in
-  (exp ((e / minus_rt) * (pypow (- (ln (loading / nm))) (1 / m)))).
-Definition DA_pressure_def (minus_rt n_m e m : R) (loading : R) : Prop :=
-  let nm := n_m in
-  let e := e in
-  let m := m in
-  minus_rt <> 0 /\ nm <> 0 /\ 0 < (loading / nm) /\ m <> 0 /\ pypow_def (- (ln (loading / nm))) (1 / m).
-(* DA.spreading_pressure: scipy.integrate.quad of loading(x)/x over [0, pressure] *)
-Definition DA_spreading_pressure (minus_rt n_m e m : R) (pressure : R) : R := RInt (fun x => DA_loading minus_rt n_m e m x / x) 0 pressure.
-
-(* ---- DR (dr.py), calculates loading; parameters n_m, e; instance attributes minus_rt *)
-Definition DR_bounds (n_m e : R) : Prop := 0 <= n_m /\ 0 <= e.
-Definition DR_loading (minus_rt n_m e : R) (pressure : R) : R :=
-  let nm := n_m in
-  let e := e in
-  (nm * (exp (- (((minus_rt * (ln pressure)) / e) ^ 2)))).
-Definition DR_loading_def (minus_rt n_m e : R) (pressure : R) : Prop :=
-  let nm := n_m in
-  let e := e in
-  0 < pressure /\ e <> 0.
-Definition DR_pressure (minus_rt n_m e : R) (loading : R) : R :=
-  let nm := n_m in
-  let e := e in
-  (exp ((e / minus_rt) * (sqrt (- (ln (loading / nm)))))).
-Definition DR_pressure_def (minus_rt n_m e : R) (loading : R) : Prop :=
-  let nm := n_m in
-  let e := e in
-  minus_rt <> 0 /\ nm <> 0 /\ 0 < (loading / nm) /\ 0 <= (- (ln (loading / nm))).
-(* DR.spreading_pressure: scipy.integrate.quad of loading(x)/x over [0, pressure] *)
-Definition DR_spreading_pressure (minus_rt n_m e : R) (pressure : R) : R := RInt (fun x => DR_loading minus_rt n_m e x / x) 0 pressure.
-
-(* ---- DSLangmuir (dslangmuir.py), calculates loading; parameters n_m1, K1, n_m2, K2 *)
-Definition DSLangmuir_bounds (n_m1 K1 n_m2 K2 : R) : Prop := 0 <= n_m1 /\ 0 <= K1 /\ 0 <= n_m2 /\ 0 <= K2.
-Definition DSLangmuir_loading (n_m1 K1 n_m2 K2 : R) (pressure : R) : R :=
-  let k1p := (K1 * pressure) in
-  let k2p := (K2 * pressure) in
-  (((n_m1 * k1p) / (1 + k1p)) + ((n_m2 * k2p) / (1 + k2p))).
-Definition DSLangmuir_loading_def (n_m1 K1 n_m2 K2 : R) (pressure : R) : Prop :=
-  let k1p := (K1 * pressure) in
-  let k2p := (K2 * pressure) in
-  (1 + k1p) <> 0 /\ (1 + k2p) <> 0.
-Definition DSLangmuir_pressure (n_m1 K1 n_m2 K2 : R) (loading : R) : R :=
-  let nm1 := n_m1 in
-  let K1 := K1 in
-  let nm2 := n_m2 in
-  let K2 := K2 in
-  let x := ((((nm1 + nm2) - loading) * K1) * K2) in
-  let y := (((nm1 * K1) + (nm2 * K2)) - (loading * (K1 + K2))) in
-  let res := (nan_div ((- y) + (sqrt ((y ^ 2) - ((4 * x) * (- loading))))) (2 * x)) in
-  res.
-Definition DSLangmuir_pressure_def (n_m1 K1 n_m2 K2 : R) (loading : R) : Prop :=
-  let nm1 := n_m1 in
-  let K1 := K1 in
-  let nm2 := n_m2 in
-  let K2 := K2 in
-  let x := ((((nm1 + nm2) - loading) * K1) * K2) in
-  let y := (((nm1 * K1) + (nm2 * K2)) - (loading * (K1 + K2))) in
-  0 <= ((y ^ 2) - ((4 * x) * (- loading))) /\ ((2 * x) <> 0 \/ ((- y) + (sqrt ((y ^ 2) - ((4 * x) * (- loading))))) = 0) /\
-  let res := (nan_div ((- y) + (sqrt ((y ^ 2) - ((4 * x) * (- loading))))) (2 * x)) in
-  True.
-Definition DSLangmuir_spreading_pressure (n_m1 K1 n_m2 K2 : R) (pressure : R) : R :=
-  ((n_m1 * (ln (1 + (K1 * pressure)))) + (n_m2 * (ln (1 + (K2 * pressure))))).
-Definition DSLangmuir_spreading_pressure_def (n_m1 K1 n_m2 K2 : R) (pressure : R) : Prop :=
-  0 < (1 + (K1 * pressure)) /\ 0 < (1 + (K2 * pressure)).
-
-(* ---- FHVST (fhvst.py), calculates pressure; parameters n_m, K, a1v *)
-Definition FHVST_bounds (n_m K a1v : R) : Prop := 0 <= n_m /\ 0 <= K.
-Definition FHVST_pressure (n_m K a1v : R) (loading : R) : R :=
-  let nm := n_m in
-  let K := K in
-  let a1v := a1v in
-  let cov := (loading / nm) in
-  (((nm / K) * (cov / (1 - cov))) * (exp (((a1v ^ 2) * cov) / (1 + (a1v * cov))))).
-Definition FHVST_pressure_def (n_m K a1v : R) (loading : R) : Prop :=
-  let nm := n_m in
-  let K := K in
-  let a1v := a1v in
-  nm <> 0 /\
-  let cov := (loading / nm) in
-  K <> 0 /\ (1 - cov) <> 0 /\ (1 + (a1v * cov)) <> 0.
-(* FHVST.loading: numerical inverse by optimize.root(hybr); CalculationError unless the solver reports success *)
-Definition FHVST_loading_spec (n_m K a1v : R) (pressure x : R) : Prop := FHVST_pressure n_m K a1v x - pressure = 0.
-(* FHVST.spreading_pressure: not implemented by the library *)
-
-(* ---- Freundlich (freundlich.py), calculates loading; parameters K, m *)
-Definition Freundlich_bounds (K m : R) : Prop := 0 <= K /\ 0 <= m.
-Definition Freundlich_loading (K m : R) (pressure : R) : R :=
-  (K * (pypow pressure (1 / m))).
-Definition Freundlich_loading_def (K m : R) (pressure : R) : Prop :=
-  m <> 0 /\ pypow_def pressure (1 / m).
-Definition Freundlich_pressure (K m : R) (loading : R) : R :=
-  (pypow (loading / K) m).
-Definition Freundlich_pressure_def (K m : R) (loading : R) : Prop :=
-  K <> 0 /\ pypow_def (loading / K) m.
-Definition Freundlich_spreading_pressure (K m : R) (pressure : R) : R :=
-  let K := K in
-  let m := m in
-  ((m * K) * (pypow pressure (1 / m))).
-Definition Freundlich_spreading_pressure_def (K m : R) (pressure : R) : Prop :=
-  let K := K in
-  let m := m in
-  m <> 0 /\ pypow_def pressure (1 / m).
-
-(* ---- GAB (gab.py), calculates loading; parameters n_m, C, K *)
-Definition GAB_bounds (n_m C K : R) : Prop := 0 <= n_m /\ 0 <= C /\ 0 <= K /\ K <= 1.
-Definition GAB_loading (n_m C K : R) (pressure : R) : R :=
-  let nm := n_m in
-  let C := C in
-  let Kp := (K * pressure) in
-  (((nm * C) * Kp) / ((1 - Kp) * ((1 - Kp) + (C * Kp)))).
-Definition GAB_loading_def (n_m C K : R) (pressure : R) : Prop :=
-  let nm := n_m in
-  let C := C in
-  let Kp := (K * pressure) in
-  ((1 - Kp) * ((1 - Kp) + (C * Kp))) <> 0.
-Definition GAB_pressure (n_m C K : R) (loading : R) : R :=
-  let nm := n_m in
-  let C := C in
-  let K := K in
-  let x := ((loading * (1 - C)) * (K ^ 2)) in
-  let y := (((loading * (C - 2)) - (nm * C)) * K) in
-  let res := (nan_div ((- y) - (sqrt ((y ^ 2) - ((4 * x) * loading)))) (2 * x)) in
-  res.
-Definition GAB_pressure_def (n_m C K : R) (loading : R) : Prop :=
-  let nm := n_m in
-  let C := C in
-  let K := K in
-  let x := ((loading * (1 - C)) * (K ^ 2)) in
-  let y := (((loading * (C - 2)) - (nm * C)) * K) in
-  0 <= ((y ^ 2) - ((4 * x) * loading)) /\ ((2 * x) <> 0 \/ ((- y) - (sqrt ((y ^ 2) - ((4 * x) * loading)))) = 0) /\
-  let res := (nan_div ((- y) - (sqrt ((y ^ 2) - ((4 * x) * loading)))) (2 * x)) in
-  True.
-Definition GAB_spreading_pressure (n_m C K : R) (pressure : R) : R :=
-  let nm := n_m in
-  let C := C in
-  let Kp := (K * pressure) in
-  (nm * (ln (((1 - Kp) + (C * Kp)) / (1 - Kp)))).
-Definition GAB_spreading_pressure_def (n_m C K : R) (pressure : R) : Prop :=
-  let nm := n_m in
-  let C := C in
-  let Kp := (K * pressure) in
-  (1 - Kp) <> 0 /\ 0 < (((1 - Kp) + (C * Kp)) / (1 - Kp)).
-
-(* ---- Henry (henry.py), calculates loading; parameters K *)
-Definition Henry_bounds (K : R) : Prop := 0 <= K.
-Definition Henry_loading (K : R) (pressure : R) : R :=
-  (K * pressure).
-Definition Henry_loading_def (K : R) (pressure : R) : Prop :=
-  True.
-Definition Henry_pressure (K : R) (loading : R) : R :=
-  (loading / K).
-Definition Henry_pressure_def (K : R) (loading : R) : Prop :=
-  K <> 0.
-Definition Henry_spreading_pressure (K : R) (pressure : R) : R :=
-  (K * pressure).
-Definition Henry_spreading_pressure_def (K : R) (pressure : R) : Prop :=
-  True.
-
-(* ---- JensenSeaton (jensenseaton.py), calculates loading; parameters K, a, b, c *)
-Definition JensenSeaton_bounds (K a b c : R) : Prop := 0 <= K /\ 0 <= a /\ 0 <= b /\ 0 <= c.
-Definition JensenSeaton_loading (K a b c : R) (pressure : R) : R :=
-  let Kp := (K * pressure) in
-  let a := a in
-  let b := b in
-  let c := c in
-  (Kp / (pypow (1 + (pypow (Kp / (a * (1 + (b * pressure)))) c)) (1 / c))).
-Definition JensenSeaton_loading_def (K a b c : R) (pressure : R) : Prop :=
-  let Kp := (K * pressure) in
-  let a := a in
-  let b := b in
-  let c := c in
-  (a * (1 + (b * pressure))) <> 0 /\ pypow_def (Kp / (a * (1 + (b * pressure)))) c /\ c <> 0 /\ pypow_def (1 + (pypow (Kp / (a * (1 + (b * pressure)))) c)) (1 / c) /\ (pypow (1 + (pypow (Kp / (a * (1 + (b * pressure)))) c)) (1 / c)) <> 0.
-(* JensenSeaton.pressure: numerical inverse by optimize.root(hybr); CalculationError unless the solver reports success *)
-Definition JensenSeaton_pressure_spec (K a b c : R) (loading x : R) : Prop := JensenSeaton_loading K a b c x - loading = 0.
-(* JensenSeaton.spreading_pressure: scipy.integrate.quad of loading(x)/x over [0, pressure] *)
-Definition JensenSeaton_spreading_pressure (K a b c : R) (pressure : R) : R := RInt (fun x => JensenSeaton_loading K a b c x / x) 0 pressure.
-
-(* ---- Langmuir (langmuir.py), calculates loading; parameters K, n_m *)
-Definition Langmuir_bounds (K n_m : R) : Prop := 0 <= K /\ 0 <= n_m.
-Definition Langmuir_loading (K n_m : R) (pressure : R) : R :=
-  let kp := (K * pressure) in
-  ((n_m * kp) / (1 + kp)).
-Definition Langmuir_loading_def (K n_m : R) (pressure : R) : Prop :=
-  let kp := (K * pressure) in
-  (1 + kp) <> 0.
-Definition Langmuir_pressure (K n_m : R) (loading : R) : R :=
-  (loading / (K * (n_m - loading))).
-Definition Langmuir_pressure_def (K n_m : R) (loading : R) : Prop :=
-  (K * (n_m - loading)) <> 0.
-Definition Langmuir_spreading_pressure (K n_m : R) (pressure : R) : R :=
-  (n_m * (ln (1 + (K * pressure)))).
-Definition Langmuir_spreading_pressure_def (K n_m : R) (pressure : R) : Prop :=
-  0 < (1 + (K * pressure)).
-
-(* ---- Quadratic (quadratic.py), calculates loading; parameters n_m, Ka, Kb *)
-Definition Quadratic_bounds (n_m Ka Kb : R) : Prop := 0 <= n_m.
-Definition Quadratic_loading (n_m Ka Kb : R) (pressure : R) : R :=
-  let nm := n_m in
-  let Ka := Ka in
-  let Kb := Kb in
-  (((nm * (Ka + ((2 * Kb) * pressure))) * pressure) / ((1 + (Ka * pressure)) + (Kb * (pressure ^ 2)))).
-Definition Quadratic_loading_def (n_m Ka Kb : R) (pressure : R) : Prop :=
-  let nm := n_m in
-  let Ka := Ka in
-  let Kb := Kb in
-  ((1 + (Ka * pressure)) + (Kb * (pressure ^ 2))) <> 0.
-Definition Quadratic_pressure (n_m Ka Kb : R) (loading : R) : R :=
-  let nm := n_m in
-  let Ka := Ka in
-  let Kb := Kb in
-  let x := ((loading - (2 * nm)) * Kb) in
-  let y := ((loading - nm) * Ka) in
-  let res := (nan_div ((- y) - (sqrt ((y ^ 2) - ((4 * x) * loading)))) (2 * x)) in
-  res.
-Definition Quadratic_pressure_def (n_m Ka Kb : R) (loading : R) : Prop :=
-  let nm := n_m in
-  let Ka := Ka in
-  let Kb := Kb in
-  let x := ((loading - (2 * nm)) * Kb) in
-  let y := ((loading - nm) * Ka) in
-  0 <= ((y ^ 2) - ((4 * x) * loading)) /\ ((2 * x) <> 0 \/ ((- y) - (sqrt ((y ^ 2) - ((4 * x) * loading)))) = 0) /\
-  let res := (nan_div ((- y) - (sqrt ((y ^ 2) - ((4 * x) * loading)))) (2 * x)) in
-  True.
-Definition Quadratic_spreading_pressure (n_m Ka Kb : R) (pressure : R) : R :=
-  (n_m * (ln ((1 + (Ka * pressure)) + (Kb * (pressure ^ 2))))).
-Definition Quadratic_spreading_pressure_def (n_m Ka Kb : R) (pressure : R) : Prop :=
-  0 < ((1 + (Ka * pressure)) + (Kb * (pressure ^ 2))).
-
-(* ---- TemkinApprox (temkinapprox.py), calculates loading; parameters n_m, K, tht *)
-Definition TemkinApprox_bounds (n_m K tht : R) : Prop := 0 <= n_m /\ 0 <= K /\ 0 <= tht.
-Definition TemkinApprox_loading (n_m K tht : R) (pressure : R) : R :=
-  let n_m := n_m in
-  let Kp := (K * pressure) in
-  let tht := tht in
-  let lang_load := (Kp / (1 + Kp)) in
-  (n_m * (lang_load + ((tht * (lang_load ^ 2)) * (lang_load - 1)))).
-Definition TemkinApprox_loading_def (n_m K tht : R) (pressure : R) : Prop :=
-  let n_m := n_m in
-  let Kp := (K * pressure) in
-  let tht := tht in
-  (1 + Kp) <> 0 /\
-  let lang_load := (Kp / (1 + Kp)) in
-  True.
-Definition TemkinApprox_spreading_pressure (n_m K tht : R) (pressure : R) : R :=
-  let n_m := n_m in
-  let Kp := (K * pressure) in
-  let tht := tht in
-  let one_plus_kp := (1 + Kp) in
-  (n_m * ((ln one_plus_kp) + ((tht * ((2 * Kp) + 1)) / (2 * (one_plus_kp ^ 2))))).
-Definition TemkinApprox_spreading_pressure_def (n_m K tht : R) (pressure : R) : Prop :=
-  let n_m := n_m in
-  let Kp := (K * pressure) in
-  let tht := tht in
-  let one_plus_kp := (1 + Kp) in
-  0 < one_plus_kp /\ (2 * (one_plus_kp ^ 2)) <> 0.
-(* TemkinApprox.pressure: numerical inverse by optimize.root(hybr); CalculationError unless the solver reports success *)
-Definition TemkinApprox_pressure_spec (n_m K tht : R) (loading x : R) : Prop := TemkinApprox_loading n_m K tht x - loading = 0.
-
-(* ---- Toth (toth.py), calculates loading; parameters n_m, K, t *)
-Definition Toth_bounds (n_m K t : R) : Prop := 0 <= n_m /\ 0 <= K /\ 0 <= t.
-Definition Toth_loading (n_m K t : R) (pressure : R) : R :=
-  let n_m := n_m in
-  let Kp := (K * pressure) in
-  let t := t in
-  ((n_m * Kp) / (pypow (1 + (pypow Kp t)) (1 / t))).
-Definition Toth_loading_def (n_m K t : R) (pressure : R) : Prop :=
-  let n_m := n_m in
-  let Kp := (K * pressure) in
-  let t := t in
-  pypow_def Kp t /\ t <> 0 /\ pypow_def (1 + (pypow Kp t)) (1 / t) /\ (pypow (1 + (pypow Kp t)) (1 / t)) <> 0.
-Definition Toth_pressure (n_m K t : R) (loading : R) : R :=
-  let n_m := n_m in
-  let K := K in
-  let t := t in
-  ((loading / (n_m * K)) / (pypow (1 - (pypow (loading / n_m) t)) (1 / t))).
-Definition Toth_pressure_def (n_m K t : R) (loading : R) : Prop :=
-  let n_m := n_m in
-  let K := K in
-  let t := t in
-  (n_m * K) <> 0 /\ n_m <> 0 /\ pypow_def (loading / n_m) t /\ t <> 0 /\ pypow_def (1 - (pypow (loading / n_m) t)) (1 / t) /\ (pypow (1 - (pypow (loading / n_m) t)) (1 / t)) <> 0.
-(* Toth.spreading_pressure: scipy.integrate.quad of loading(x)/x over [0, pressure] *)
-Definition Toth_spreading_pressure (n_m K t : R) (pressure : R) : R := RInt (fun x => Toth_loading n_m K t x / x) 0 pressure.
-
-(* ---- TSLangmuir (tslangmuir.py), calculates loading; parameters n_m1, n_m2, n_m3, K1, K2, K3 *)
-Definition TSLangmuir_bounds (n_m1 n_m2 n_m3 K1 K2 K3 : R) : Prop := 0 <= n_m1 /\ 0 <= n_m2 /\ 0 <= n_m3 /\ 0 <= K1 /\ 0 <= K2 /\ 0 <= K3.
-Definition TSLangmuir_loading (n_m1 n_m2 n_m3 K1 K2 K3 : R) (pressure : R) : R :=
-  let k1p := (K1 * pressure) in
-  let k2p := (K2 * pressure) in
-  let k3p := (K3 * pressure) in
-  ((((n_m1 * k1p) / (1 + k1p)) + ((n_m2 * k2p) / (1 + k2p))) + ((n_m3 * k3p) / (1 + k3p))).
-Definition TSLangmuir_loading_def (n_m1 n_m2 n_m3 K1 K2 K3 : R) (pressure : R) : Prop :=
-  let k1p := (K1 * pressure) in
-  let k2p := (K2 * pressure) in
-  let k3p := (K3 * pressure) in
-  (1 + k1p) <> 0 /\ (1 + k2p) <> 0 /\ (1 + k3p) <> 0.
-Definition TSLangmuir_spreading_pressure (n_m1 n_m2 n_m3 K1 K2 K3 : R) (pressure : R) : R :=
-  (((n_m1 * (ln (1 + (K1 * pressure)))) + (n_m2 * (ln (1 + (K2 * pressure))))) + (n_m3 * (ln (1 + (K3 * pressure))))).
-Definition TSLangmuir_spreading_pressure_def (n_m1 n_m2 n_m3 K1 K2 K3 : R) (pressure : R) : Prop :=
-  0 < (1 + (K1 * pressure)) /\ 0 < (1 + (K2 * pressure)) /\ 0 < (1 + (K3 * pressure)).
-(* TSLangmuir.pressure: numerical inverse by optimize.root(hybr); CalculationError unless the solver reports success *)
-Definition TSLangmuir_pressure_spec (n_m1 n_m2 n_m3 K1 K2 K3 : R) (loading x : R) : Prop := TSLangmuir_loading n_m1 n_m2 n_m3 K1 K2 K3 x - loading = 0.
-
-(* ---- Virial (virial.py), calculates pressure; parameters K, A, B, C *)
-Definition Virial_bounds (K A B C : R) : Prop := 0 <= K.
-Definition Virial_pressure (K A B C : R) (loading : R) : R :=
-  (loading * (exp ((((- (ln K)) + (A * loading)) + (B * (loading ^ 2))) + (C * (loading ^ 3))))).
-Definition Virial_pressure_def (K A B C : R) (loading : R) : Prop :=
-  0 < K.
-(* Virial.loading: numerical inverse by optimize.minimize(Nelder-Mead) of the squared residual; CalculationError unless the solver reports success *)
-Definition Virial_loading_spec (K A B C : R) (pressure x : R) : Prop := Virial_pressure K A B C x - pressure = 0.
-(* Virial.spreading_pressure: not implemented by the library *)
-
-(* ---- WVST (wvst.py), calculates pressure; parameters n_m, K, L1v, Lv1 *)
-Definition WVST_bounds (n_m K L1v Lv1 : R) : Prop := 0 <= n_m /\ 0 <= K.
-Definition WVST_pressure (n_m K L1v Lv1 : R) (loading : R) : R :=
-  let n_m := n_m in
-  let Lv1 := Lv1 in
-  let L1v := L1v in
-  let cov := (loading / n_m) in
-  let covX1minLv1 := ((1 - Lv1) * cov) in
-  let covX1minL1v := ((1 - L1v) * cov) in
-  let coef := ((L1v * (1 - covX1minLv1)) / (L1v + covX1minL1v)) in
-  let expcoef := ((- ((Lv1 * covX1minLv1) / (1 - covX1minLv1))) - (covX1minL1v / (L1v + covX1minL1v))) in
-  let res := (((((n_m / K) * cov) / (1 - cov)) * coef) * (exp expcoef)) in
-  res.
-Definition WVST_pressure_def (n_m K L1v Lv1 : R) (loading : R) : Prop :=
-  let n_m := n_m in
-  let Lv1 := Lv1 in
-  let L1v := L1v in
-  n_m <> 0 /\
-  let cov := (loading / n_m) in
-  let covX1minLv1 := ((1 - Lv1) * cov) in
-  let covX1minL1v := ((1 - L1v) * cov) in
-  (L1v + covX1minL1v) <> 0 /\
-  let coef := ((L1v * (1 - covX1minLv1)) / (L1v + covX1minL1v)) in
-  (1 - covX1minLv1) <> 0 /\ (L1v + covX1minL1v) <> 0 /\
-  let expcoef := ((- ((Lv1 * covX1minLv1) / (1 - covX1minLv1))) - (covX1minL1v / (L1v + covX1minL1v))) in
-  K <> 0 /\ (1 - cov) <> 0 /\
-  let res := (((((n_m / K) * cov) / (1 - cov)) * coef) * (exp expcoef)) in
-  True.
-(* WVST.loading: numerical inverse by optimize.root(hybr); CalculationError unless the solver reports success *)
-Definition WVST_loading_spec (n_m K L1v Lv1 : R) (pressure x : R) : Prop := WVST_pressure n_m K L1v Lv1 x - pressure = 0.
-(* WVST.spreading_pressure: not implemented by the library *)
+(* translator py2v_formulas FAILED on the current source:
+py2v_formulas: unsupported construct: /repo/src/pygaps/modelling/bet.py:160: statement if numpy.isnan(res).any():
+*)
+Translator_failed_closed.
